@@ -62,9 +62,11 @@ def run_histories(ctx, cfg):
             fid = hfindings.classify(ctx.pid, r, eng, ops)
             witness = {'spec': spec, 'ops': ops, 'report': r.as_dict(), 'history_index': i}
             if len(shrunk) < cfg.get('max_shrinks', 6) and (fid or key) not in shrunk:
-                small = hops.shrink(spec, ops, key, workdir, budget=shrink_budget, **cfg.get('engine_kw', {}))
-                e2 = hops.replay_ops(spec, small, workdir, **cfg.get('engine_kw', {}))
-                rr = [x for x in e2.reports if (x.monitor, x.kind) == key]
+                mech = r.detail.get('mechanism') if isinstance(r.detail, dict) else None
+                ekw = dict(cfg.get('engine_kw', {}), stop_on_taint=cfg.get('stop_on_taint', True))
+                small = hops.shrink(spec, ops, key, workdir, budget=shrink_budget, mech=mech, **ekw)
+                e2 = hops.replay_ops(spec, small, workdir, **ekw)
+                rr = [x for x in e2.reports if (x.monitor, x.kind) == key and (mech is None or x.detail.get('mechanism') == mech)]
                 if rr:
                     witness = {'spec': spec, 'ops': small, 'report': rr[0].as_dict(), 'history_index': i,
                                'shrunk_from': len(ops), 'errors': e2.errlog[-4:]}
@@ -78,7 +80,7 @@ def run_histories(ctx, cfg):
 
 def replay(ctx, witness, cfg):
     workdir = ctx.tmp()
-    eng = hops.replay_ops(witness['spec'], witness['ops'], workdir)
+    eng = hops.replay_ops(witness['spec'], witness['ops'], workdir, stop_on_taint=cfg.get('stop_on_taint', True))
     monitors = set(cfg['monitors'])
     for r in eng.reports:
         if r.monitor in monitors:
